@@ -13,6 +13,16 @@ pub const K_TOL: f64 = 4.0;
 /// designs with a larger 2-norm condition number are outside the quantifier ("moderately conditioned")
 pub const COND_MAX: f64 = 1.0e4;
 pub const MAX_ITER: usize = 1000;
+/// a fit of the sizes used here needs well under a millisecond of CPU time; one that has consumed this
+/// much without returning is looping (every such verdict is re-confirmed twice by the driver's replays)
+pub const WATCHDOG_CPU_MS: u64 = 500;
+
+/// The input class in which the unchanged optimiser is known to stall and then loop (PCG breakdown
+/// 0/0 after a stalled line search): unnormalised designs with large entries. Fits of this class
+/// always run under the watchdog.
+pub fn raw_large_scale(x: &Mat, cfg: &Cfg) -> bool {
+    !cfg.normalize && x.iter().any(|r| r.iter().any(|v| v.abs() >= 50.0))
+}
 
 #[derive(Clone, Debug)]
 pub struct Cfg {
@@ -49,41 +59,84 @@ pub enum FitOut {
     Hang(u64),
 }
 
-/// `fit_raw` on a thread of its own, abandoned once that thread has consumed `cpu_ms` milliseconds
-/// of CPU time without returning (read from /proc/<pid>/task/<tid>/stat, so the verdict does not
-/// depend on how busy the machine is; a fit of the sizes used here needs well under a millisecond).
-/// Used only for the small input classes in which the library is known to be able to loop. A looping
-/// call cannot be stopped: its thread keeps spinning until the worker process exits, which is why
-/// these jobs are scheduled last.
-pub fn fit_watched(x: &Mat, y: &[f64], cfg: &Cfg, max_iter: usize, xp: &Mat, cpu_ms: u64) -> FitOut {
-    use std::time::{Duration, Instant};
-    let (tx, rx) = std::sync::mpsc::channel();
+/// A helper thread that executes fits on behalf of the worker thread, so that a call that never
+/// returns can be abandoned.
+struct Fitter {
+    tx: std::sync::mpsc::Sender<(Mat, Vec<f64>, Cfg, usize, Mat)>,
+    rx: std::sync::mpsc::Receiver<FitOut>,
+    /// "<pid>/task/<tid>" of the helper thread
+    task: Option<std::path::PathBuf>,
+}
+
+fn spawn_fitter() -> Fitter {
+    let (tx, req_rx) = std::sync::mpsc::channel::<(Mat, Vec<f64>, Cfg, usize, Mat)>();
+    let (res_tx, rx) = std::sync::mpsc::channel();
     let (tid_tx, tid_rx) = std::sync::mpsc::channel();
-    let (x2, y2, cfg2, xp2) = (x.clone(), y.to_vec(), cfg.clone(), xp.clone());
     std::thread::spawn(move || {
         let _ = tid_tx.send(std::fs::read_link("/proc/thread-self").ok());
-        let _ = tx.send(fit_raw(&x2, &y2, &cfg2, max_iter, &xp2));
+        while let Ok((x, y, cfg, max_iter, xp)) = req_rx.recv() {
+            if res_tx.send(fit_raw(&x, &y, &cfg, max_iter, &xp)).is_err() {
+                break;
+            }
+        }
     });
-    let task = tid_rx.recv_timeout(Duration::from_secs(30)).ok().flatten();
-    let t0 = Instant::now();
-    loop {
-        match rx.recv_timeout(Duration::from_millis(20)) {
-            Ok(r) => return r,
-            Err(std::sync::mpsc::RecvTimeoutError::Disconnected) => return FitOut::Err("harness: the fitting thread ended without a result".into()),
-            Err(std::sync::mpsc::RecvTimeoutError::Timeout) => {
-                let wall = t0.elapsed().as_millis() as u64;
-                match task.as_ref().and_then(|t| thread_cpu_ms(t)) {
-                    Some(c) if c >= cpu_ms => return FitOut::Hang(c),
-                    // on a starved machine: 100x the normal CPU need and 8 s of wall time are enough
-                    // (stays below the driver's per-case deadline)
-                    Some(c) if c >= cpu_ms / 5 && wall >= 8_000 => return FitOut::Hang(c),
-                    // no /proc: fall back to wall time
-                    None if wall >= 4 * cpu_ms => return FitOut::Hang(wall),
-                    _ => {}
+    let task = tid_rx.recv_timeout(std::time::Duration::from_secs(30)).ok().flatten();
+    Fitter { tx, rx, task }
+}
+
+thread_local! {
+    static FITTER: std::cell::RefCell<Option<Fitter>> = std::cell::RefCell::new(None);
+}
+
+/// `fit_raw` on the helper thread, abandoned once that thread has consumed `cpu_ms` milliseconds of
+/// CPU time on this call without returning (read from /proc/<pid>/task/<tid>/stat, so the verdict
+/// does not depend on how busy the machine is; a fit of the sizes used here needs well under a
+/// millisecond). Used only for the input classes in which the library is known to be able to loop.
+/// A looping call cannot be stopped: the abandoned helper keeps spinning (in this build profile
+/// until the `max_ls_iter += 1` of the line search overflows its i32 after 2^31 rounds and panics,
+/// a few minutes) and a fresh helper is started for the next call.
+pub fn fit_watched(x: &Mat, y: &[f64], cfg: &Cfg, max_iter: usize, xp: &Mat, cpu_ms: u64) -> FitOut {
+    use std::sync::mpsc::RecvTimeoutError;
+    use std::time::{Duration, Instant};
+    FITTER.with(|slot| {
+        let mut slot = slot.borrow_mut();
+        if slot.is_none() {
+            *slot = Some(spawn_fitter());
+        }
+        let f = slot.as_ref().unwrap();
+        let cpu0 = f.task.as_ref().and_then(|t| thread_cpu_ms(t)).unwrap_or(0);
+        if f.tx.send((x.clone(), y.to_vec(), cfg.clone(), max_iter, xp.clone())).is_err() {
+            *slot = None;
+            return FitOut::Err("harness: the fitting thread is gone".into());
+        }
+        let t0 = Instant::now();
+        loop {
+            match f.rx.recv_timeout(Duration::from_millis(20)) {
+                Ok(r) => return r,
+                Err(RecvTimeoutError::Disconnected) => {
+                    *slot = None;
+                    return FitOut::Err("harness: the fitting thread ended without a result".into());
+                }
+                Err(RecvTimeoutError::Timeout) => {
+                    let wall = t0.elapsed().as_millis() as u64;
+                    let used = f.task.as_ref().and_then(|t| thread_cpu_ms(t)).map(|c| c.saturating_sub(cpu0));
+                    let hang = match used {
+                        Some(c) if c >= cpu_ms => Some(c),
+                        // on a starved machine: 100x the normal CPU need and 8 s of wall time are
+                        // enough (stays below the driver's per-case deadline)
+                        Some(c) if c >= cpu_ms / 5 && wall >= 8_000 => Some(c),
+                        // no /proc: fall back to wall time
+                        None if wall >= 4 * cpu_ms => Some(wall),
+                        _ => None,
+                    };
+                    if let Some(c) = hang {
+                        *slot = None;
+                        return FitOut::Hang(c);
+                    }
                 }
             }
         }
-    }
+    })
 }
 
 /// utime + stime of one thread in milliseconds (clock ticks of 10 ms).
@@ -206,20 +259,24 @@ pub fn fit_and_judge(x: &Mat, y_in: &[f64], cfg: &Cfg, watchdog_ms: Option<u64>)
     let constant_target = pr.yc.iter().all(|v| *v == 0.0);
     let mean_nonzero = pr.ybar != 0.0;
     if !in_quantifier {
+        // not "moderately conditioned": outside the quantifier, not fitted (the unchanged library can
+        // loop on exactly collinear columns; nothing is promised there)
         mc::count(if pr.cond.is_finite() { "design_ill_conditioned_outside_quantifier" } else { "design_rank_deficient_outside_quantifier" });
+        return None;
     }
+    let raw_large = raw_large_scale(x, cfg);
     let xp = predict_rows(x);
-    let out = match watchdog_ms {
+    let out = match watchdog_ms.or(if raw_large { Some(WATCHDOG_CPU_MS) } else { None }) {
         None => fit_raw(x, y_in, cfg, MAX_ITER, &xp),
         Some(ms) => fit_watched(x, y_in, cfg, MAX_ITER, &xp, ms),
     };
-    // input class used in site keys (decided from the input alone)
-    let class = if !in_quantifier {
-        "ill-conditioned-design"
-    } else if est == "elasticnet" && mean_nonzero {
+    // input class used in the site keys of fit-level failures (decided from the input alone)
+    let class = if est == "elasticnet" && mean_nonzero {
         "target-mean-nonzero"
     } else if constant_target {
         "constant-target"
+    } else if raw_large {
+        "raw-large-scale-design"
     } else {
         "valid-input"
     };
@@ -235,10 +292,6 @@ pub fn fit_and_judge(x: &Mat, y_in: &[f64], cfg: &Cfg, watchdog_ms: Option<u64>)
             return None;
         }
         FitOut::Err(e) => {
-            if !in_quantifier {
-                mc::count("fit_err_outside_quantifier");
-                return None;
-            }
             mc::violation(format!("{}.fit:error:{}", est, class), format!("{}: fit returned Err(\"{}\") for a valid input (the minimiser is {})", label(), e, if constant_target { "w = 0" } else { "finite" }));
             mc::outcome(mc::hash::h_str("err"));
             return None;
@@ -246,9 +299,8 @@ pub fn fit_and_judge(x: &Mat, y_in: &[f64], cfg: &Cfg, watchdog_ms: Option<u64>)
         FitOut::Ok(f) => f,
     };
     mc::count("fits_ok");
-    if !in_quantifier {
-        // terminated without panicking; nothing else is promised for such designs
-        return None;
+    if raw_large {
+        mc::count("fits_ok_raw_large_scale_watched");
     }
     let Fitted { w, b, pred } = fitted;
     mc::outcome(mc::hash::mix(mc::hash::h_f64s_rounded(&w, 9), mc::hash::h_f64s_rounded(&[b], 9)));
@@ -277,10 +329,12 @@ pub fn fit_and_judge(x: &Mat, y_in: &[f64], cfg: &Cfg, watchdog_ms: Option<u64>)
     let v: Vec<f64> = (0..p).map(|j| w[j] * pr.des.std[j]).collect();
     // (a column mean carries a rounding error of eps * max|x_ij|, whichever row is looked at)
     let colmax: Vec<f64> = (0..p).map(|j| x.iter().fold(0.0f64, |m, r| m.max(r[j].abs()))).collect();
+    let ymax = y_in.iter().fold(0.0f64, |m, v| m.max(v.abs()));
     for i in 0..n {
         let model = pr.ybar + oracle::dot(&pr.des.z[i], &v);
         let got = oracle::dot(&x[i], &w) + b;
-        let scale = pr.ybar.abs() + (0..p).map(|j| w[j].abs() * colmax[j]).sum::<f64>() + b.abs();
+        // (likewise mean(y) carries eps * max|y_i|)
+        let scale = ymax + (0..p).map(|j| w[j].abs() * colmax[j]).sum::<f64>() + b.abs();
         if (model - got).abs() > 256.0 * f64::EPSILON * scale + f64::MIN_POSITIVE {
             let class = if cfg.normalize { "normalized" } else { "raw" };
             mc::violation(
@@ -321,7 +375,7 @@ pub fn fit_and_judge(x: &Mat, y_in: &[f64], cfg: &Cfg, watchdog_ms: Option<u64>)
         bucket((f - opt.f) / (cfg.tol * opt.f));
     }
     if !(f <= opt.f + slack) {
-        let class = if class == "valid-input" { format!("{}:{}", if cfg.normalize { "normalized" } else { "raw" }, regime) } else { class.to_string() };
+        let class = if class == "valid-input" || class == "raw-large-scale-design" { format!("{}:{}", if cfg.normalize { "normalized" } else { "raw" }, regime) } else { class.to_string() };
         mc::violation(
             format!("{}.objective:{}", est, class),
             format!(
@@ -376,7 +430,7 @@ pub fn case(x: &Mat, y_base: &[f64], cfg: &Cfg, watchdog_ms: Option<u64>, ctarge
         return;
     }
     let xp = predict_rows(x);
-    let base_out = match watchdog_ms {
+    let base_out = match watchdog_ms.or(if raw_large_scale(x, cfg) { Some(WATCHDOG_CPU_MS) } else { None }) {
         None => fit_raw(x, y_base, &base_cfg, MAX_ITER, &xp),
         Some(ms) => fit_watched(x, y_base, &base_cfg, MAX_ITER, &xp, ms),
     };
@@ -436,7 +490,7 @@ fn reproduces_lasso(x: &Mat, y_in: &[f64], cfg: &Cfg, js: &Judged, watchdog_ms: 
         return;
     }
     let xp = predict_rows(x);
-    let out = match watchdog_ms {
+    let out = match watchdog_ms.or(if raw_large_scale(x, cfg) { Some(WATCHDOG_CPU_MS) } else { None }) {
         None => fit_raw(x, y_in, &lcfg, MAX_ITER, &xp),
         Some(ms) => fit_watched(x, y_in, &lcfg, MAX_ITER, &xp, ms),
     };
